@@ -1,0 +1,14 @@
+//go:build verif
+
+package peer
+
+// VerifSetEventCap replaces the peer's command channel by one of the given
+// capacity (before the peer is used).
+func (p *Peer) VerifSetEventCap(n int) { p.Event = make(chan PeerEvent, n) }
+
+// VerifSetDownload freezes the download rate estimator at the given value
+// (bytes per time constant); maybeRequest then sees rate = value/3.
+func (p *Peer) VerifSetDownload(value float64) { p.download.VerifSet(value, false) }
+
+// VerifMember reports the membership bit of the request queue.
+func (p *Peer) VerifMember(c uint32) bool { return p.requests.VerifMember(c) }
